@@ -45,8 +45,30 @@ def main():
     wt = "/tmp/evalwt_%s_%d" % (name, os.getpid())
     res = {"dir": d, "property": meta["property"], "checked_props": props}
     sh("git -C /repo worktree add -q --detach %s HEAD" % wt)
+    prev = None
+    if "--checks-only" in sys.argv and os.path.exists(os.path.join(d, "eval.json")):
+        prev = json.load(open(os.path.join(d, "eval.json")))
     try:
         patch = os.path.join(d, "patch.diff")
+        if prev is not None and prev.get("baseline_ok") and prev.get("demo_ok"):
+            # baseline and demonstration were confirmed by an earlier full evaluation: only re-run the checks
+            res.update({k: prev[k] for k in ("applies", "baseline", "baseline_ok", "demo_clean_rc", "demo_patched_rc", "demo_ok",
+                                             "demo_clean_tail", "demo_patched_tail") if k in prev})
+            res["first_evaluation_checks"] = prev.get("first_evaluation_checks", prev.get("checks"))
+            rc, out, err = sh("git -C %s apply %s" % (wt, patch))
+            if rc != 0:
+                res["applies"] = False
+                res["error"] = err[-400:]
+                return res
+            res["checks"] = {}
+            for pid in props:
+                t0 = time.time()
+                env = dict(os.environ, VERIF_REPO=wt, VERIF_SEED=seed, VERIF_NO_SHRINK="1",
+                           VERIF_EVIDENCE_DIR=os.path.join(VERIF, ".build", "evidence_seeded"))
+                rc, out, err = sh("bin/check %s --tier quick" % pid, cwd=VERIF, env=env, timeout=3600)
+                sigs = sorted(set(l.split(" ")[1] for l in err.splitlines() if l.startswith("violation ")))
+                res["checks"][pid] = {"exit": rc, "caught": rc == 1, "signatures": sigs[:12], "wall_s": round(time.time() - t0, 1)}
+            return res
         touches_c = any(l.startswith("+++") and (".c" in l[-3:] or ".h" in l[-3:]) for l in open(patch))
         # demo on the clean tree
         rc0, out0 = run_demo(wt, os.path.join(d, "demo.py"), True)
